@@ -179,6 +179,11 @@ for _m in ('match', 'search', 'fullmatch', 'findall', 'sub', 'split'):
 for _m in ('group', 'groups', 'groupdict', 'start', 'end', 'span'):
     METHODS.add((_re.Match, _m))
 DOTTED_CALLS['collections.OrderedDict'] = _collections.OrderedDict
+import base64 as _base64
+# the base64 codec of the standard library (its leniency - characters outside the alphabet are dropped unless validate=True - is
+# part of what the evaluated code relies on)
+DOTTED_CALLS['base64.b64decode'] = _base64.b64decode
+DOTTED_CALLS['base64.b64encode'] = _base64.b64encode
 TYPE_VALUES = {'slice': slice, 'int': int, 'str': str, 'bytes': bytes, 'bytearray': bytearray, 'bool': bool, 'list': list, 'tuple': tuple, 'dict': dict, 'set': set}
 
 
